@@ -50,7 +50,8 @@ def run(ctx):
     ctx.rule = ("TLC enumerates (simplex grid recipe: 1D line grids, structured triangles, Kuhn tetrahedra, sizes <= 3 per "
                 "direction, unit / non-uniform spacing / lattice perturbation / integer shear; dim < 3: embedded in 3D by a "
                 "seeded rational rigid motion) x (constant integer SPD tensor); every configuration is discretised with RT0 "
-                "and with MVEM, all-Dirichlet data of a constant and 2-4 linear fields.  One evaluation = one "
+                "and with MVEM (one RT0 and one MVEM object serve all grids in turn), all-Dirichlet data of a constant and "
+                "2-4 linear fields.  One evaluation = one "
                 "(configuration, scheme) whose fluxes, cell pressures and mass matrix TLC judged; classes = (scheme, dim, "
                 "kind, modification, size, tensor class, embedded); non-trivial = several cells")
     ctx.assumptions = ["integer node coordinates of the pre-image, valid simplices (decided by TLC on the exported topology)",
@@ -80,5 +81,7 @@ def run(ctx):
 def replay(ctx, body):
     rec = body["record"]
     cfg = dict(rec["cfg"], scheme=rec.get("scheme") or rec["cfg"].get("scheme", "rt0"))
-    execute(ctx, [cfg], "replay")
+    # the configuration that the shared discretisation object served before the recorded one is executed first
+    prev = [dict(rec["prev"], scheme=cfg["scheme"])] if rec.get("prev") else []
+    execute(ctx, prev + [cfg], "replay")
     ctx.sample(dict(config=_fv.describe(cfg, cfg["scheme"])))
